@@ -71,6 +71,9 @@ def assign_registers(data: CodeData, code: list[IC10Instruction]):
 
     all_scopes = set(data.functions.keys())
     all_scopes.update(data.symbols.keys())
+    # every function waits for the module scopes: a library without functions and
+    # without registers of its own must be sorted as well
+    all_scopes.update(module_names)
 
     # print("called_from")
     # for k, v in called_from.items():
